@@ -131,6 +131,7 @@ def lift(name, cls=None, check_drift=True, module="cencoding", pre=(), idioms=()
     lines = [hdr] + lines[nh:]
     start += nh - 1
     fname, sig, types = _strip_sig(lines[0])
+    charptrs = set()           # variables declared `char *`
     out = [sig]
     inits = []
     used_lines = []
@@ -199,6 +200,8 @@ def lift(name, cls=None, check_drift=True, module="cencoding", pre=(), idioms=()
                     v = p.lstrip("*").strip()
                     if CTYPES.get(ctype):
                         types[v] = ctype
+                    if ctype == "char *":
+                        charptrs.add(v)
             continue
         if stripped.startswith("print("):
             out.append(ln.replace("print(", "_rt.corrupt("))
@@ -209,6 +212,9 @@ def lift(name, cls=None, check_drift=True, module="cencoding", pre=(), idioms=()
     text = "\n".join(out)
     for rx, rep in list(idioms) + IDIOMS:
         text = re.sub(rx, rep, text)
+    for v in sorted(charptrs):
+        # Cython: len() of a char* is strlen() - the bytes up to the first NUL
+        text = re.sub(r"\blen\(\s*%s\s*\)" % re.escape(v), "_rt.strlen(%s)" % v, text)
     if re.search(r"<\s*[\w ]+\*?\s*>", text.split('"""')[-1] if '"""' in text else text):
         bad = re.search(r".*<\s*[\w ]+\*?\s*>.*", text)
         # tolerate comparison chains like a < b > c? none occur; treat as unrecognised cast
